@@ -589,6 +589,13 @@ def check(run):
         res = common.build_props("Props/C07.v", extra_targets=("Model/MarkingsRun.vo",))
         run.add_build(res, "make -C coq Props/C07.vo (coqc 8.16.1, full .vo) + Print Assumptions per theorem")
         facts = C08.source_step(run, "Props/C07Src.v", G.CFG_FIELDS)
+        if facts is not None:
+            res = common.build_props("Props/C07Versioning.v")
+            run.add_build(res, "make -C coq Props/C07.vo Props/C07Src.vo Props/C07Versioning.vo (coqc 8.16.1, full .vo) "
+                               "+ Print Assumptions per theorem")
+            run.coverage["new_version_changed_keys_in_source"] = facts["nv_changed"]
+        else:
+            run.coverage["obligations"] += len(common.theorems_in("Props/C07Versioning.v"))
     cfg, obs = probe_variants(run)
     C08.compare_text_and_probe(run, facts, cfg, G.CFG_FIELDS)
     run.coverage["variant_selected"] = {k: cfg[k] for k in G.CFG_FIELDS if k in cfg}
